@@ -104,7 +104,7 @@ def check_C01(tier, seed, replay=None):
     cfg = F.RandCfg(depth=4, maxrules=3, safe_rep=False)
     groups += F.random_groups(seed, nrand, cfg, gi0=len(groups) + 1)
     inputs = F.all_inputs([F.A, F.B, F.UA], maxlen)
-    options = [opt(), opt(maxexpr=3000), opt(entry="-"), opt(debug=True)]
+    options = [opt(), opt(maxexpr=3000), opt(entry="-"), opt(debug=True), opt(via="reader"), opt(via="file")]
     allin = list(range(len(inputs)))
     run.keep_debug = True
 
@@ -113,8 +113,10 @@ def check_C01(tier, seed, replay=None):
         pl = [(ii, oi) for ii in allin]
         if not g.maydiverge and g.gi % 4 == 0:
             pl += [(ii, 3) for ii in allin[::3]]          # Debug(true) runs: the T2 traces
+        if not g.maydiverge and g.gi % 5 == 1:
+            pl += [(ii, 4) for ii in allin[::2]] + [(ii, 5) for ii in allin[::7]]      # through ParseReader and ParseFile
         return pl
-    div, tot = run.execute(groups, inputs, options, plan_for, flagsets)
+    div, tot = run.execute(groups, inputs, options, plan_for, flagsets, pack_size=100, noentry_oi=2)
     design_level(run, groups, inputs, options, lambda g: [1] if g.maydiverge else [0], 192 if tier == "quick" else 100000)
     t2_bind(run, 1500 if tier == "quick" else 20000)
     return std_finish(run, div, tot, "E(d) exhaustive single-rule grammars + random multi-rule grammars x all inputs up to the bound x flag sets; a group is distinct by construction (enumeration) and non-trivial when it has at least one operator")
@@ -193,10 +195,17 @@ def check_C05(tier, seed, replay=None):
     cfg = F.RandCfg(depth=4, maxrules=3, state=True, cloner=True, gstore=True, preds=True)
     groups += F.random_groups(seed, nrand, cfg, gi0=len(groups) + 1)
     inputs = F.all_inputs([F.A, F.B], maxlen)
-    options = [opt(), opt(maxexpr=3000)]
+    options = [opt(), opt(maxexpr=3000), opt(initx=2, initg=3), opt(initx=1, initg=1, maxexpr=3000)]    # InitState / GlobalStore options
     nin = len(inputs)
     lrin = add_lr(groups, inputs, 60 if tier == "quick" else 400, seed)     # state blocks inside left-recursive growth
-    div, tot = run.execute(groups, inputs, options, budget_plan(nin, lr_inputs=lrin), flagsets)
+    bp = budget_plan(nin, lr_inputs=lrin)
+
+    def plan5(g):
+        pl = bp(g)
+        if "lr" not in g.tags:
+            pl = pl + [(ii, 3 if g.maydiverge else 2) for ii in range(0, nin, 2)]
+        return pl
+    div, tot = run.execute(groups, inputs, options, plan5, flagsets)
     design_level(run, groups, inputs, options, lambda g: [1] if g.maydiverge else [0], 400 if tier == "quick" else 100000, inputs_idx=range(nin))
     return std_finish(run, div, tot, "state blocks (shallow set/inc, in-place Cloner append, globalStore increments) at every position of E(d) skeletons + random grammars with state predicates; every event carries the store and globalStore its block saw and the entry action returns the final store; all inputs over {a,b} up to the bound")
 
@@ -1132,6 +1141,18 @@ def check_C13(tier, seed, replay=None):
         valid.append(pack_text([g]).encode())
     for i in range(10 if tier == "quick" else 60):
         valid.append(pack_text([F.lr_group(rng, 1000 + i)]).encode())
+    lrtexts = []
+    for i in range(80 if tier == "quick" else 600):        # dense left-call graphs: several cycles, with and without a common rule
+        nr = rng.randint(2, 4)
+        g = Gram(2000 + i)
+        roots = []
+        for ri in range(nr):
+            alts = [g.seq([g.ref(rng.randint(1, nr)), g.lit([F.A + rng.randint(0, 2)])]) for _ in range(rng.randint(1, 3))] + [g.lit([F.B + ri])]
+            roots.append(g.choice(alts))
+        g.rules = roots
+        g.disp = [""] * nr
+        g.compute_args()
+        lrtexts.append(pack_text([g]).encode())
     # the repository's own grammars
     for root, _, files in os.walk(P.REPO):
         for fn in files:
@@ -1170,6 +1191,8 @@ def check_C13(tier, seed, replay=None):
     for o in odd:
         texts.append(("odd", head + o))
         texts.append(("odd", o))
+    for v in lrtexts:
+        texts.append(("leftrec", v))
     base_flags = ["-optimize-grammar", "-optimize-parser", "-optimize-basic-latin", "-support-left-recursion", "-nolint", "-cache", "-x", "-debug", "-no-recover"]
     specials = [["-h"], ["-help"], ["-bogus"], ["-alternate-entrypoints", "Nope"], ["-alternate-entrypoints", "A", "-optimize-grammar"],
                 ["-receiver-name", "p"], ["-o", os.path.join(d, "nodir", "x.go")], ["-receiver-name"], ["-alternate-entrypoints", ","],
@@ -1181,7 +1204,9 @@ def check_C13(tier, seed, replay=None):
             f.write(t)
         nf = 1 if kind == "bytes" else (4 if tier == "quick" else 8)
         for j in range(nf):
-            if kind == "bytes":
+            if kind == "leftrec":
+                fl = [["-support-left-recursion"], [], ["-support-left-recursion", "-optimize-parser"], ["-support-left-recursion", "-optimize-grammar"]][j % 4]
+            elif kind == "bytes":
                 fl = [] if i % 3 else ["-optimize-grammar"]
             elif j == 0:
                 fl = []
@@ -1379,6 +1404,68 @@ def c09_groups(seed, n, gi0=1):
     return out
 
 
+def c09_idiom_groups(seed, n, gi0):
+    """leaf rules that are nothing but a class / a literal / a small choice, referenced from several rules and several
+    places, each time right next to an alternative the optimizer merges with (the identifier Head/Tail idiom)"""
+    from peg import Gram
+    rng = random.Random(seed)
+    out = []
+    pool = [F.A, F.B, 99, 100, 101, 102, F.UA, 66, 95, 36, 48, 49]
+    for i in range(n):
+        g = Gram(gi0 + i)
+        nleaf = rng.randint(1, 2)
+        nr = 2 + nleaf + rng.randint(0, 1)
+        leaf_ix = list(range(nr - nleaf + 1, nr + 1))
+
+        def leaf():
+            c = rng.random()
+            chars = rng.sample(pool, rng.choice([1, 2, 3, 3, 4, 5, 6, 7]))
+            if c < 0.6:
+                return g.cls(tuple(chars), (), rng.random() < 0.15, rng.random() < 0.2)
+            if c < 0.8:
+                return g.choice([g.lit([x]) for x in chars[:3]]) if len(chars) > 1 else g.lit([chars[0]])
+            return g.cls(tuple(chars[:2]), (F.A, 99), False, False)
+
+        def single():
+            c = rng.random()
+            x = rng.choice(pool)
+            if c < 0.6:
+                return g.lit([x], rng.random() < 0.15)
+            return g.cls((x, rng.choice(pool)), (), False, rng.random() < 0.15)
+
+        def use():
+            L = g.ref(rng.choice(leaf_ix))
+            alts = [L, single()] if rng.random() < 0.6 else [single(), L]
+            if rng.random() < 0.3:
+                alts.append(single())
+            c = g.choice(alts)
+            r = rng.random()
+            if r < 0.35:
+                c = g.un("star", c)
+            elif r < 0.5:
+                c = g.un("plus", c)
+            elif r < 0.6:
+                c = g.label(c)
+            return c
+        roots = []
+        for ri in range(1, nr - nleaf + 1):
+            items = [use() for _ in range(rng.randint(1, 3))]
+            if ri < nr - nleaf and rng.random() < 0.7:
+                items.insert(rng.randint(0, len(items)), g.ref(ri + 1))
+            body = g.seq(items) if len(items) > 1 else items[0]
+            if rng.random() < 0.6:
+                body = g.action(body)
+            roots.append(body)
+        for _ in range(nleaf):
+            roots.append(leaf())
+        g.rules = roots
+        g.disp = [""] * len(roots)
+        g.compute_args()
+        g.maydiverge = g.may_diverge()
+        out.append(g)
+    return out
+
+
 def check_C09(tier, seed, replay=None):
     """-optimize-grammar preserves the language and what actions see"""
     import findings
@@ -1386,8 +1473,12 @@ def check_C09(tier, seed, replay=None):
     run = Run("C09", tier, seed)
     n, maxlen = (300, 3) if tier == "quick" else (3000, 4)
     groups = c09_groups(seed, n)
+    groups += c09_idiom_groups(seed + 3, n, len(groups) + 1)
     groups += F.random_groups(seed + 5, n // 3, F.RandCfg(depth=3, maxrules=3, preds=True, throw=True), gi0=len(groups) + 1)
     inputs = F.all_inputs([F.A, F.B, F.UA, 99], maxlen)
+    rngi = random.Random(seed)
+    for _ in range(150 if tier == "quick" else 1500):       # the idiom family's alphabet
+        inputs.append([rngi.choice([F.A, F.B, 99, 100, 101, 102, F.UA, 66, 95, 36, 48, 49]) for _ in range(rngi.randint(1, 5))])
     nin = len(inputs)
     options = [opt(), opt(maxexpr=3000)]
     # every protected rule is exercised as an entrypoint: "@k" enters rule k directly
@@ -1398,7 +1489,7 @@ def check_C09(tier, seed, replay=None):
     protected = {}
     for g in groups:
         # a random subset of the other rules is named in -alternate-entrypoints
-        protected[g.gi] = [k for k in range(2, len(g.rules) + 1) if rng.random() < 0.5]
+        protected[g.gi] = [k for k in range(2, min(len(g.rules), 4) + 1) if rng.random() < 0.5]
 
     def plan_for(g):
         b = 1 if g.maydiverge else 0
